@@ -151,6 +151,9 @@ HAND_SMALL = [
     '(seq (par (call "@A" ("s" "tag") [] $s1) (call "@B" ("s" "tag") [] $s1)) (fold $s1 i1 (seq (call "@C" ("s" "id") [i1]) (next i1))))',
     # fold over a scalar array, par-next idiom
     '(seq (call "@A" ("s" "arr") [] v1) (fold v1 i1 (par (call "@B" ("s" "id") [i1]) (next i1))))',
+    # a par whose left branch is itself a par + a dependent call, right branch a new scope (7 instructions): the shape
+    # on which the par state machine re-positioned a slider inside the left window (fixed in /repo)
+    '(par (seq (par (call "@C" ("s" "args") [[]] v1) (call "@B" ("s" "arr") [] v2)) (call "@A" ("s" "num") ["lit" v1 v2.$.length])) (new v7 (call "@A" ("s" "tag") [] v7)))',
     # new on a stream
     '(new $s1 (seq (par (call "@A" ("s" "num") [] $s1) (call "@B" ("s" "num") [] $s1)) (seq (canon "@A" $s1 #canon1) (call "@C" ("s" "id") [#canon1]))))',
 ]
